@@ -416,7 +416,9 @@ func (b *BlockWise[C]) handleReceivedMessage(w *responsewriter.ResponseWriter[C]
 	return b.startSendingMessage(w, maxSZX, maxMessageSize, startSendingMessageBlock)
 }
 
-func (b *BlockWise[C]) createSendingMessage(sendingMessage *pool.Message, maxSZX SZX, maxMessageSize uint32, block uint32) (sendMessage *pool.Message, more bool, err error) {
+// createSendingMessage cuts the block described by block out of sendingMessage. With peerHasBlock the
+// block number of a Block1 transfer is the block the peer has acknowledged, so the one after it is sent.
+func (b *BlockWise[C]) createSendingMessage(sendingMessage *pool.Message, maxSZX SZX, maxMessageSize uint32, block uint32, peerHasBlock bool) (sendMessage *pool.Message, more bool, err error) {
 	blockType := message.Block2
 	sizeType := message.Size2
 	token := sendingMessage.Token()
@@ -444,7 +446,7 @@ func (b *BlockWise[C]) createSendingMessage(sendingMessage *pool.Message, maxSZX
 	szx = getSzx(szx, maxSZX)
 	newBufLen := bufferSize(szx, maxMessageSize)
 	off := num * szx.Size()
-	if blockType == message.Block1 {
+	if blockType == message.Block1 && peerHasBlock {
 		// For block1, we need to skip the already sent bytes.
 		off += newBufLen
 	}
@@ -511,7 +513,7 @@ func (b *BlockWise[C]) continueSendingMessage(w *responsewriter.ResponseWriter[C
 	var sendMessage *pool.Message
 	var more bool
 	b.sendingMessagesCache.LoadWithFunc(r.Token().Hash(), func(value *cache.Element[*pool.Message]) *cache.Element[*pool.Message] {
-		sendMessage, more, err = b.createSendingMessage(value.Data(), maxSZX, maxMessageSize, block)
+		sendMessage, more, err = b.createSendingMessage(value.Data(), maxSZX, maxMessageSize, block, true)
 		if err != nil {
 			err = fmt.Errorf("cannot create sending message: %w", err)
 		}
@@ -544,7 +546,7 @@ func (b *BlockWise[C]) startSendingMessage(w *responsewriter.ResponseWriter[C], 
 	if payloadSize < maxSZX.Size() {
 		return nil
 	}
-	sendingMessage, _, err := b.createSendingMessage(w.Message(), maxSZX, maxMessageSize, block)
+	sendingMessage, _, err := b.createSendingMessage(w.Message(), maxSZX, maxMessageSize, block, false)
 	if err != nil {
 		return fmt.Errorf("handleSendingMessage: cannot create sending message: %w", err)
 	}
